@@ -33,29 +33,41 @@ class FragmentSpreadsMustNotFormCycles(June2018ReleaseValidationRule):
     RULE_LINK = "https://graphql.github.io/graphql-spec/June2018/#sec-Fragment-spreads-must-not-form-cycles"
     RULE_NUMBER = "5.5.2.2"
 
-    def _validate_fragment(self, fragments, fragment, spreaded):
-        for selected in fragment.selection_set.selections:
+    def _collect_spreads(self, selection_set, spreads):
+        if selection_set is None:
+            return spreads
+        for selected in selection_set.selections:
             if isinstance(selected, FragmentSpreadNode):
-                if selected.name.value not in spreaded:
-                    spreaded.append(selected.name.value)
+                spreads.append(selected.name.value)
+            else:
+                self._collect_spreads(
+                    getattr(selected, "selection_set", None), spreads
+                )
+        return spreads
 
-                    fragment = find_nodes_by_name(
-                        fragments, selected.name.value
-                    )
-                    if not fragment:
-                        continue  # Handled by another validator
-                    fragment = fragment[0]
+    def _validate_fragment(self, fragments, fragment, path, checked):
+        name = fragment.name.value
+        if name in checked:
+            return
 
-                    self._validate_fragment(fragments, fragment, spreaded)
-                else:
-                    raise CycleException(fragments, self._extensions)
-        return
+        path.append(name)
+        for spread_name in self._collect_spreads(fragment.selection_set, []):
+            if spread_name in path:
+                raise CycleException(fragments, self._extensions)
+
+            spreaded = find_nodes_by_name(fragments, spread_name)
+            if not spreaded:
+                continue  # Handled by another validator
+
+            self._validate_fragment(fragments, spreaded[0], path, checked)
+        path.pop()
+        checked.add(name)
 
     def validate(self, fragments, **_):
+        checked = set()
         for fragment in fragments:
             try:
-                self._validate_fragment(fragments, fragment, [])
+                self._validate_fragment(fragments, fragment, [], checked)
             except CycleException as e:
                 return e.tartiflette_errors
-
         return []
